@@ -273,7 +273,7 @@ var (
 
 		Time.RFC1123,
 	}
-	matchDateTimeZone = regexp.MustCompile(`^(.*)(?:(Z)|([\+\-]\d{2}):(\d{2}))$`)
+	matchDateTimeZone = regexp.MustCompile(`^(.*\d)(?:(Z)|([\+\-]\d{2}):(\d{2}))$`)
 )
 
 // dateParse returns the epoch of the parsed date.
